@@ -467,7 +467,7 @@ func offsetBatch(err error, orig *ach.File, offsets []string) string {
 func init() {
 	Register("C07", &Oracle{
 		Rule: "tabulated valid generator files: every SEC in rotation (22 Batcher SECs, IAT, ADV) and mixed files, categories Forward/Return/NOC/RefusedNOC/Dishonored/Contested, 0..3 repeatable addenda, " +
-			"offsets, pre-set traces, full-width and Latin-1 fields; ValidateOpts on the file: nil, zero, every single flag in turn, random subsets, all flags; " +
+			"offsets, pre-set traces, full-width and Latin-1 fields; ValidateOpts on the file: nil, zero, every single flag in turn, random subsets, all flags (half of the files that store BypassOriginValidation / BypassDestinationValidation carry a ten-character origin / destination); " +
 			"paths: json.Marshal -> ach.FileFromJSON, json.Marshal -> (*File).UnmarshalJSON, Writer -> Reader -> json.Marshal -> FileFromJSON, and the two achcli -reformat directions (its few lines replicated: package main); " +
 			"distinct = distinct (SECs, categories, addenda kinds, offsets, flag set); non-trivial = every case (each has at least one entry)",
 		Run: func(t *T) {
@@ -515,6 +515,26 @@ func run(t *T) {
 		}
 		opts, optClass := pickOpts(r, i)
 		f.SetValidation(opts)
+		// a ten-character origin / destination ("1" + tax id): only the stored bypass option keeps all ten characters
+		// in the header record, so the option must survive every decode path for the text to come back
+		if opts != nil && opts.BypassOriginValidation && r.Chance(1, 2) {
+			old := f.Header.ImmediateOrigin
+			f.Header.ImmediateOrigin = fmt.Sprintf("1%09d", r.Intn(1000000000))
+			if f.Validate() != nil {
+				f.Header.ImmediateOrigin = old
+			} else {
+				optClass += "+ten-char-origin"
+			}
+		}
+		if opts != nil && opts.BypassDestinationValidation && r.Chance(1, 2) {
+			old := f.Header.ImmediateDestination
+			f.Header.ImmediateDestination = fmt.Sprintf("1%09d", r.Intn(1000000000))
+			if f.Validate() != nil {
+				f.Header.ImmediateDestination = old
+			} else {
+				optClass += "+ten-char-destination"
+			}
+		}
 		if err := f.Validate(); err != nil && opts != nil && opts.RequireABAOrigin {
 			opts.RequireABAOrigin = false // the only flag that tightens validation
 			f.SetValidation(opts)
@@ -879,8 +899,10 @@ func checkFile(t *T, r *gen.Rand, f *ach.File, opts *ach.ValidateOpts, optClass 
 	// (b) text -> Reader -> json.Marshal -> FileFromJSON -> text.  The reader is
 	// given the file's ValidateOpts half of the time (as achcli -validate does).
 	readOpts := opts
-	if r.Bool() && !strings.HasPrefix(optClass, "foreign-traces") {
-		readOpts = nil // (a file with foreign trace numbers is only readable under its options)
+	if r.Bool() && !strings.HasPrefix(optClass, "foreign-traces") && !strings.Contains(optClass, "+ten-char-") {
+		// (a file with foreign trace numbers is only readable under its options; a ten-character origin or
+		// destination is only kept by a header that carries the bypass option, which the text does not record)
+		readOpts = nil
 	}
 	rd := ach.NewReader(strings.NewReader(text0))
 	rd.SetValidation(readOpts)
